@@ -171,6 +171,17 @@ def gen_case(rng, tier, index):
             lw["rows"] = rng.randint(1, 6)
         return {"kind": "geometry", "lw": lw}
     device = rng.choice(["evo", "fluent"])
+    if kind == "emit" and rng.random() < 0.08:
+        # one long-lived worklist, many short-lived labware objects (a stack of plates handled one after the other
+        # by a helper function that creates the plate, pipettes into it and returns), or one labware object that
+        # is written out for both robots
+        items = []
+        for _ in range(rng.randint(3, 14)):
+            g = _gen_lw(rng, small=True)
+            if g["kind"] == "plate" and g["rows"] * g["columns"] > 400:
+                g = {"kind": "plate", "rows": 4, "columns": 6}
+            items.append({"lw": g, "well": [rng.randrange(_nr(g)), rng.randrange(g["columns"])], "op": rng.choice(["aspirate", "dispense"])})
+        return {"kind": "stack", "device": device, "items": items, "both_devices": rng.random() < 0.4}
     if kind == "emit":
         lw = _gen_lw(rng, small=rng.random() < 0.6)
         ids = [(r, c) for c in range(lw["columns"]) for r in range(_nr(lw))]
@@ -641,8 +652,51 @@ def run_case(ctx, case):
         _run_emit(ctx, case)
     elif kind == "unknown":
         _run_unknown(ctx, case)
+    elif kind == "stack":
+        _run_stack(ctx, case)
     else:
         raise ValueError(kind)
+
+
+def _run_stack(ctx, case):
+    """Positions depend on the labware addressed and on the device of the worklist - not on which labware or which
+    worklist was used before (objects come and go; one labware may be written out for both robots)."""
+    import gc
+
+    device = case["device"]
+    other = "fluent" if device == "evo" else "evo"
+    wl = _worklist(device)
+    wl2 = _worklist(other) if case.get("both_devices") else None
+    ctx.case(case, True)
+    ctx.count("stack_cases")
+    for i, it in enumerate(case["items"]):
+        g = it["lw"]
+        r, c = it["well"]
+        obj = _build(g, f"P{i:03d}", 100000.0)
+        for w, dev in ((wl, device), (wl2, other)):
+            if w is None:
+                continue
+            n0 = len(w)
+            exc = None
+            try:
+                getattr(w, it["op"])(obj, wid(r, c), 7.0)
+            except Exception as e:
+                exc = e
+            recs = [x for x in list(w)[n0:] if isinstance(x, str) and x[:2] in ("A;", "D;")]
+            pos = None
+            if len(recs) == 1:
+                try:
+                    pos = gwl.parse(recs[0]).f["position"]
+                except gwl.GrammarError:
+                    pos = None
+            want = expected_position(g, dev, r, c)
+            ctx.count("stack_positions_checked")
+            ctx.check("record_position_field_matches_formula", exc is None and pos == want,
+                      lambda: {"labware": g, "well": wid(r, c), "device": dev, "n_th_labware_on_this_worklist": i,
+                               "also_used_by_the_other_device": wl2 is not None, "expected": want, "observed": pos,
+                               "raised": repr(exc), "records": recs})
+        del obj
+        gc.collect()
 
 
 # ---------------------------------------------------------------------------------------------
